@@ -188,6 +188,247 @@ def no_mutation_of_node_configs(repo: Repo, R: Report) -> None:
         check_no_mutation(repo, R, r, rel, qn, [pname], through_calls=True)
 
 
+# ---------------------------------------------------------------------------
+# round 9: D3d - the callees that are handed a caller-owned node mapping (interprocedural ownership)
+# ---------------------------------------------------------------------------
+def _package_targets(repo: Repo, mod, call: ast.Call) -> List[Tuple[object, ast.AST]]:
+    try:
+        got = repo.resolve_call(mod, call)
+    except AnalysisError:
+        return []
+    return [(tm, tf) for tm, tf in got if isinstance(tf, FuncNode) and tm.defs.get(qualname_of(tf)) is tf]
+
+
+def _bind_args(tf: ast.AST, call: ast.Call) -> List[Tuple[str, ast.AST]]:
+    """(parameter name, argument expression) of *call* against the signature of *tf* (a bound method / constructor
+    call does not pass the receiver)."""
+    pos = [a.arg for a in tf.args.posonlyargs + tf.args.args]
+    static = any((dotted_name(d) or "").split(".")[-1] == "staticmethod" for d in getattr(tf, "decorator_list", []))
+    in_class = isinstance(getattr(tf, "_parent", None), ast.ClassDef)
+    if in_class and not static and pos and pos[0] in ("self", "cls", "mcs"):
+        pos = pos[1:]
+    out = [(pos[i], a) for i, a in enumerate(call.args) if i < len(pos) and not isinstance(a, ast.Starred)]
+    names = set(pos) | {a.arg for a in tf.args.kwonlyargs}
+    out += [(kw.arg, kw.value) for kw in call.keywords if kw.arg and kw.arg in names]
+    return out
+
+
+def _identity_flow(repo: Repo, rel: str, qualname: str):
+    from .c04_rest import flow_of
+
+    try:
+        return flow_of(repo, rel, qualname, identity=True)
+    except (AnalysisError, RecursionError):
+        return None
+
+
+def _handed_back(repo: Repo, rel: str, qualname: str, rest: Tuple[str, ...]) -> Set[Tuple[str, Tuple[str, ...]]]:
+    """(parameter, path) pairs such that what the function returns, read along *rest*, can be the very object the
+    caller passed for that parameter, read along path (a function that returns its argument on some path - a
+    preprocessing step that has nothing to do - hands the caller's object back, not a copy)."""
+    cache = repo.__dict__.setdefault("_c04_handed_back", {})
+    key = (rel, qualname, rest)
+    if key in cache:
+        return cache[key]
+    cache[key] = set()  # recursion guard
+    out: Set[Tuple[str, Tuple[str, ...]]] = set()
+    sub = _identity_flow(repo, rel, qualname)
+    if sub is not None:
+        for ret in [n for n in walk_no_nested(sub.fn) if isinstance(n, ast.Return) and n.value is not None]:
+            try:
+                leaves = sub.origins(ret.value, rest)
+            except AnalysisError:
+                continue
+            for root, p in leaves:
+                if isinstance(root, ast.Name) and root.id in sub.params:
+                    out.add((root.id, p))
+    cache[key] = out
+    return out
+
+
+def object_origins(repo: Repo, rel: str, flow, e: ast.AST, path: Tuple[str, ...] = (), depth: int = 0) -> Set[Tuple[ast.AST, Tuple[str, ...]]]:
+    """flow.origins, and behind every leaf that is the result of a package function that can hand its argument back
+    (see _handed_back) the origins of that argument."""
+    try:
+        leaves = set(flow.origins(e, path))
+    except AnalysisError:
+        return set()
+    out = set(leaves)
+    if depth >= 3:
+        return out
+    mod = repo.module(rel)
+    for root, rest in leaves:
+        if not isinstance(root, ast.Call) or call_attr(root) in FRESH_CTORS:
+            continue
+        for tm, tf in _package_targets(repo, mod, root):
+            back = _handed_back(repo, tm.rel, qualname_of(tf), rest)
+            if not back:
+                continue
+            bound = dict(_bind_args(tf, root))
+            for pname, p2 in sorted(back):
+                if pname in bound:
+                    out |= object_origins(repo, rel, flow, bound[pname], p2, depth + 1)
+    return out
+
+
+def _self_normalising_store(repo: Repo, rel: str, flow, st: ast.AST, container: ast.AST, same_object) -> Optional[Tuple[str, Tuple[str, str]]]:
+    """`X[K] = G(<X[K]>)` - the field K of a mapping is replaced by what the package function G makes of the value the
+    same field of the same mapping held (a default literal where it was absent): returns (K, (file, function) of G).
+    *same_object*(leaf) says whether a non-literal origin of G's argument is the field of the mapping in question."""
+    if not isinstance(st, ast.Assign) or len(st.targets) != 1:
+        return None
+    tgt = st.targets[0]
+    if not (isinstance(tgt, ast.Subscript) and tgt.value is container and isinstance(tgt.slice, ast.Constant) and isinstance(tgt.slice.value, str)):
+        return None
+    field = tgt.slice.value
+    try:
+        made = flow.origins(st.value)
+    except AnalysisError:
+        return None
+    fn_ids: Set[Tuple[str, str]] = set()
+    for root, rest in made:
+        if rest or not isinstance(root, ast.Call):
+            return None
+        targets = _package_targets(repo, repo.module(rel), root)
+        if len(targets) != 1:
+            return None
+        tm, tf = targets[0]
+        bound = _bind_args(tf, root)
+        if len(bound) != 1:
+            return None
+        n_field = 0
+        for leaf in object_origins(repo, rel, flow, bound[0][1]):
+            r2, p2 = leaf
+            if not p2 and (isinstance(r2, ast.Constant) or (isinstance(r2, (ast.Dict, ast.List, ast.Tuple)) and not getattr(r2, "keys", getattr(r2, "elts", None)))):
+                continue  # the default where the field is absent / empty
+            if r2 is root and not p2:
+                continue  # what this very store put there on an earlier round of a loop (re-applying the function)
+            if p2 and p2[-1] == "f:" + field and (same_object(leaf) or isinstance(r2, ast.Call)):
+                n_field += 1 if same_object(leaf) else 0  # (a Call root: the same field of what a preprocessing step made of the mapping)
+                continue
+            return None
+        if not n_field:
+            return None
+        fn_ids.add((tm.rel, qualname_of(tf)))
+    return (field, sorted(fn_ids)[0]) if len(fn_ids) == 1 else None
+
+
+def canonicaliser_normalisations(repo: Repo) -> Set[Tuple[str, Tuple[str, str]]]:
+    """The (field, function) pairs such that the canonicaliser (build_canonical_spec, normal form) passes what a node
+    mapping holds under *field* through the package function *function* (parameter resolution) - however it keeps the
+    result (a store into its own copy of the node, a new mapping, a local)."""
+    from .c04_rest import GRAPH
+
+    flow = _identity_flow(repo, GRAPH, "build_canonical_spec")
+    if flow is None:
+        raise AnalysisError("build_canonical_spec: value-origin analysis failed (anchor of the node normalisations)")
+    out: Set[Tuple[str, Tuple[str, str]]] = set()
+    mod = repo.module(GRAPH)
+    for c in calls_in(flow.fn):
+        targets = _package_targets(repo, mod, c)
+        if len(targets) != 1:
+            continue
+        tm, tf = targets[0]
+        bound = _bind_args(tf, c)
+        if len(bound) != 1:
+            continue
+        try:
+            direct = flow.origins(bound[0][1])  # (not behind hand-backs: the field as the node holds it, not a value made of it)
+        except AnalysisError:
+            continue
+        for _r2, p2 in direct:
+            if p2 and p2[-1].startswith("f:"):
+                out.add((p2[-1][2:], (tm.rel, qualname_of(tf))))
+    return out
+
+
+def node_mapping_callees(repo: Repo, consumers: List[Tuple[str, str, str]], max_depth: int = 3) -> List[Tuple[str, str, str, str]]:
+    """(file, function, parameter, call chain) of the package functions that receive - directly or through further
+    calls - an object that is, or is still part of (no copy in between), the node list a consumer was handed."""
+    out: List[Tuple[str, str, str, str]] = []
+    seen: Set[Tuple[str, str, str]] = set(consumers)
+    todo = [(rel, qn, p, qn, 0) for rel, qn, p in consumers]
+    while todo:
+        rel, qn, pname, chain, depth = todo.pop(0)
+        if depth >= max_depth:
+            continue
+        flow = _identity_flow(repo, rel, qn)
+        if flow is None or pname not in flow.params:
+            continue
+        mod = repo.module(rel)
+        for c in calls_in(flow.fn):
+            targets = _package_targets(repo, mod, c)
+            if not targets:
+                continue
+            for tm, tf in targets:
+                for p2, a in _bind_args(tf, c):
+                    if isinstance(a, (ast.Constant, ast.JoinedStr, ast.Lambda, ast.Compare)):
+                        continue
+                    try:
+                        names, _calls = flow.feeds(a)
+                    except AnalysisError:
+                        continue
+                    if pname not in names:
+                        continue
+                    leaves = object_origins(repo, rel, flow, a)
+                    if not any(isinstance(r, ast.Name) and r.id == pname for r, _p in leaves):
+                        continue
+                    key = (tm.rel, qualname_of(tf), p2)
+                    if key in seen:
+                        continue
+                    seen.add(key)
+                    ch = f"{chain} -> {qualname_of(tf)}"
+                    out.append(key + (ch,))
+                    todo.append(key + (ch, depth + 1))
+    return out
+
+
+def no_mutation_by_callees(repo: Repo, R: Report) -> None:
+    """C04-D3d: ownership of the node mappings does not end at the first call."""
+    r = R.rule("C04-D3d-node-config-callees-do-not-mutate", "a function that is handed - by a consumer of the node list (the inspection builder, build_canonical_spec) or further down the calls - an object that is still the caller's node mapping or part of it (no copy in between; a helper that returns its argument unchanged on some path hands the caller's object back) does not write into it: inspection constructs the nodes from the very mappings that are canonicalised afterwards (build_inspection_payload, inspect-then-Pipeline in the CLI), so a field rewritten on the way (a processor name replaced by the resolved class, a default filled in) gives the same configuration other node uuids / pipeline id / semantic id / config id after an inspection than on a fresh parse.  Only a store the canonicaliser performs itself on its own copy - the same field replaced by the same function of what that field held (parameter resolution, idempotent) - leaves the canonical form as it was", 2)
+    consumers = node_config_consumers(repo)
+    callees = node_mapping_callees(repo, consumers)
+    if not callees:
+        raise AnalysisError(f"no package function receives a node mapping from the consumers of the node list {consumers} (the inspection builder constructs nodes from them)")
+    allowed = canonicaliser_normalisations(repo)
+    for rel, qn, pname, chain in callees:
+        flow = _identity_flow(repo, rel, qn)
+        if flow is None:
+            continue
+        fn = flow.fn
+        n_sites = 0
+        for st, container in mutation_targets(fn):
+            root, _keys = access_path(container)
+            if root is None or root == "self":
+                continue
+            try:
+                names, _calls = flow.feeds(container)
+            except AnalysisError:
+                continue
+            if pname not in names:
+                continue
+            is_param = lambda leaf: isinstance(leaf[0], ast.Name) and leaf[0].id == pname and leaf[0].id in flow.params  # noqa: E731
+            shared = sorted({_leaf_text(l) for l in object_origins(repo, rel, flow, container) if is_param(l)})
+            n_sites += 1
+            if not shared:
+                R.ok(r, rel, qn, norm(st)[:90])
+                continue
+            sig = _self_normalising_store(repo, rel, flow, st, container, is_param)
+            if sig is not None and sig in allowed:
+                R.ok(r, rel, qn, f"{norm(st)[:70]}  [= the canonicaliser's own `{sig[0]}` <- {sig[1][1]}({sig[0]})]")
+                continue
+            R.violation(r, rel, qn, norm(st)[:90],
+                        f"in-place write into `{norm(container)[:40]}`, which can be the caller's own node mapping (`{shared[0]}`, handed down {chain}; no copy on that path): the node list that was inspected is canonicalised afterwards (build_inspection_payload builds the canonical spec from the same mappings, the CLI inspects and then constructs the Pipeline), and `_canonical_node` / the node uuid see the rewritten field - the same configuration gets other node uuids, pipeline id, semantic id and config id than on a fresh parse or than pipeline_start of a Pipeline built without inspecting first", st.lineno)
+        if n_sites == 0:
+            R.ok(r, rel, qn, f"{qn}({pname}): no write reaches the caller's mapping")
+
+
+def _leaf_text(leaf) -> str:
+    from .c04_rest import _show_leaf
+
+    return _show_leaf(leaf)
+
+
 def no_mutation_of_hashed_input(repo: Repo, R: Report) -> None:
     """C04-D3b: execute() must not mutate the caller-owned canonical spec it hashes."""
     r = R.rule("C04-D3b-no-mutation-of-hashed-input", "no statement of execute() / build_inspection_payload() mutates an object reachable from a caller-owned identity input (canonical_spec, pipeline_spec, config); enrichment works on copies down to the mutated level", 2)
@@ -202,11 +443,13 @@ def run(repo: Repo, R: Report) -> None:
     R.assume(
         "yaml.safe_load resolves layout, quoting, anchors and scalar spellings to equal Python values (YAML-level equivalences are the parser's)",
         "json.dumps(sort_keys=True) is insensitive to mapping order; sha256/uuid5 are deterministic",
+        "the function the canonicaliser applies to a node field before hashing it (parameter resolution) is idempotent: what a resolver returns is not text / a mapping / a list that a second pass would resolve again (C04-D3d accepts a callee storing that function's result under the same field of the caller's node)",
     )
     R.undecided("YAML-text level rewrites (decided by the YAML parser); cross-process equality beyond the absence of ambient / hash-seed dependent constructs")
     R.undecided("the repr() fallback of variable_domain_signature / _json_safe_sample for values json.dumps rejects (C04-D2b accepts a rendering that is only reached after json.dumps of the same value failed): a sequence element that is a mapping holding a non-JSON scalar (YAML date) is still rendered in key order, a YAML !!set in hash-seed order - residual of the unchanged tree, reproduced by hand")
     no_mutation_of_hashed_input(repo, R)
     no_mutation_of_node_configs(repo, R)
+    no_mutation_by_callees(repo, R)
     from . import c04_rest
 
     c04_rest.run(repo, R)
